@@ -26,18 +26,24 @@
 (*         binds it, every later one must agree (property C06).            *)
 (*   ckx   exclusions learnt from rejected segments on unbound flows       *)
 (*   viol  clauses violated by the last step;  kf  known findings hit      *)
+(*   groups  C19: for each payload group (the same application payload     *)
+(*         sent under several port pairs / IP versions), how its first     *)
+(*         member was answered, in canonical form                          *)
+(*   pairs   C08: the same frame run once after only the accepted data     *)
+(*         segments of its own flow and once inside the full interleaved   *)
+(*         history; how it was answered the first time                     *)
 (***************************************************************************)
 EXTENDS Wire, Config, App, TLC
 
-VARIABLES cfg, tcb, ck, ckx, viol, kf, last
+VARIABLES cfg, tcb, ck, ckx, viol, kf, last, groups, pairs
 
-svars == << cfg, tcb, ck, ckx, viol, kf, last >>
+svars == << cfg, tcb, ck, ckx, viol, kf, last, groups, pairs >>
 
 (* Known deviations of the implementation (KNOWN_FINDINGS.txt), as keys *)
 CONSTANT KnownKeys
 
 NoRep == << >>
-NoAux == [ inflated |-> -1, uaddr |-> << >>, chain |-> 0, grp |-> 0 ]
+NoAux == [ inflated |-> -1, uaddr |-> << >>, chain |-> 0, grp |-> 0, pair |-> 0 ]
 Silence(log, n) == [ kind |-> "silence", rep |-> NoRep, log |-> log, tcb |-> n, aux |-> NoAux ]
 
 (***************************************************************************)
@@ -465,6 +471,76 @@ Judge(b, obs) ==
     \cup LogOK(b, obs, o)
 
 (***************************************************************************)
+(* C19: answers do not depend on ports or IP version.  Events whose        *)
+(* aux.grp is non-zero belong to a group of frames carrying the same       *)
+(* application payload over the same transport; all members of a group     *)
+(* must be answered alike (answered or not, by the same responder, with    *)
+(* the same bytes after masking the fields the statement lists).           *)
+(***************************************************************************)
+GroupObs(b, obs) ==
+    LET o == ExpectL2(b)
+        r == obs.rep
+        transport == IF o.kind = "udp" THEN "udp" ELSE "tcp"
+        pay == IF o.kind = "udp" THEN UdpPayload(b) ELSE TcpPayload(b)
+        shaped == obs.kind = "reply" /\ ReplyShape(b, r, IF o.kind = "udp" THEN 8 ELSE 20)
+        rpl == IF ~shaped THEN << >>
+               ELSE IF o.kind = "udp" THEN Bytes(r, L4Start(r) + 8, Len(r)) ELSE Bytes(r, L4Start(r) + 20, Len(r))
+    IN [ transport |-> transport, pay |-> pay, answered |-> rpl # << >>,
+         who |-> IF rpl = << >> THEN "nobody" ELSE ResponderOf(transport, rpl),
+         canon |-> IF rpl = << >> THEN << >> ELSE AppCanon(transport, rpl) ]
+
+GroupEligible(b, obs) ==
+    LET o == ExpectL2(b) IN
+    obs.aux.grp # 0 /\ (o.kind = "udp" \/ (o.kind = "data" /\ obs.kind = "reply" /\ StreamBefore(TcpCtx(b).flow) = << >>))
+
+GroupJudge(b, obs) ==
+    IF ~GroupEligible(b, obs) \/ obs.aux.grp \notin DOMAIN groups THEN {}
+    ELSE LET g == groups[obs.aux.grp]
+             m == GroupObs(b, obs)
+         IN IF g.pay # m.pay \/ g.transport # m.transport THEN {}
+            ELSE V("C19", "answered-or-not-independent-of-ports-and-ip-version", g.answered = m.answered)
+                 \cup V("C19", "same-responder-whatever-the-ports-and-ip-version", g.who = m.who)
+                 \cup V("C19", "same-bytes-after-masking-endpoint-and-clock-fields", g.canon = m.canon)
+
+AfterGroups(b, obs) ==
+    IF ~GroupEligible(b, obs) \/ obs.aux.grp \in DOMAIN groups THEN groups
+    ELSE [ k \in DOMAIN groups \cup { obs.aux.grp } |-> IF k = obs.aux.grp THEN GroupObs(b, obs) ELSE groups[k] ]
+
+(***************************************************************************)
+(* C08: the reply to a frame is a function of the configuration, the frame *)
+(* and the accepted data segments of its own flow.  Events carrying the    *)
+(* same non-zero aux.pair are the same frame executed under two histories  *)
+(* that agree on its own flow (one of them contains nothing else); the two *)
+(* observations must be equal modulo wall-clock fields.                    *)
+(***************************************************************************)
+ReplyCanon(b, obs) ==
+    LET r == obs.rep
+        o == ExpectL2(b)
+    IN
+    IF obs.kind # "reply" THEN << obs.kind >>
+    ELSE IF o.layers = << "eth", "ipv4", "tcp" >> \/ o.layers = << "eth", "ipv6", "tcp" >>
+    THEN IF ~ReplyShape(b, r, 20) THEN r
+         ELSE LET rs == L4Start(r) IN
+              << TcpFlags(r, rs), TcpSeq(r, rs), TcpAck(r, rs), TcpSport(r, rs), TcpDport(r, rs),
+                 AppCanon("tcp", Bytes(r, rs + 20, Len(r))) >>
+    ELSE IF o.kind = "udp"
+    THEN IF ~ReplyShape(b, r, 8) THEN r
+         ELSE LET rs == L4Start(r) IN
+              << UdpSport(r, rs), UdpDport(r, rs), AppCanon("udp", Bytes(r, rs + 8, Len(r))) >>
+    ELSE r
+
+PairJudge(b, obs) ==
+    IF obs.aux.pair = 0 \/ obs.aux.pair \notin DOMAIN pairs THEN {}
+    ELSE LET p == pairs[obs.aux.pair] IN
+         IF p.req # b THEN {}
+         ELSE V("C08", "reply-depends-only-on-the-frame-and-its-own-flow", p.canon = ReplyCanon(b, obs))
+
+AfterPairs(b, obs) ==
+    IF obs.aux.pair = 0 \/ obs.aux.pair \in DOMAIN pairs THEN pairs
+    ELSE [ k \in DOMAIN pairs \cup { obs.aux.pair } |->
+             IF k = obs.aux.pair THEN [ req |-> b, canon |-> ReplyCanon(b, obs) ] ELSE pairs[k] ]
+
+(***************************************************************************)
 (* State after the step                                                    *)
 (***************************************************************************)
 StreamCap == 4096
@@ -505,7 +581,7 @@ EmptyFn == [ x \in {} |-> 0 ]
 
 Init(c) ==
     /\ cfg = c /\ tcb = EmptyFn /\ ck = EmptyFn /\ ckx = {}
-    /\ viol = {} /\ kf = {} /\ last = "init"
+    /\ viol = {} /\ kf = {} /\ last = "init" /\ groups = EmptyFn /\ pairs = EmptyFn
 
 (* Known findings: a violated clause is attributed to a listed deviation   *)
 (* only if it falls in that deviation's specific class.                    *)
@@ -537,7 +613,7 @@ OutcomeLabel(b) ==
     ELSE o.name
 
 Handle(b, obs) ==
-    LET j == Judge(b, obs)
+    LET j == Judge(b, obs) \cup GroupJudge(b, obs) \cup PairJudge(b, obs)
         known == { v \in j : KnownKey(v, b, obs) \in KnownKeys }
     IN
     /\ viol' = j \ known
@@ -546,13 +622,15 @@ Handle(b, obs) ==
     /\ ck' = AfterCk(b, obs)
     /\ ckx' = AfterCkx(b, obs)
     /\ last' = OutcomeLabel(b)
+    /\ groups' = AfterGroups(b, obs)
+    /\ pairs' = AfterPairs(b, obs)
     /\ UNCHANGED cfg
 
 Reconfigure(c) ==
     /\ cfg' = c /\ tcb' = EmptyFn /\ ck' = EmptyFn /\ ckx' = {}
-    /\ viol' = {} /\ kf' = {} /\ last' = "reconfigure"
+    /\ viol' = {} /\ kf' = {} /\ last' = "reconfigure" /\ groups' = EmptyFn /\ pairs' = EmptyFn
 
 ResetTable ==
     /\ tcb' = EmptyFn /\ viol' = {} /\ kf' = {} /\ last' = "reset"
-    /\ UNCHANGED << cfg, ck, ckx >>
+    /\ UNCHANGED << cfg, ck, ckx, groups, pairs >>
 =============================================================================
